@@ -10,6 +10,7 @@ import (
 	"net/url"
 	"os"
 	"path/filepath"
+	"reflect"
 	"runtime"
 	"sort"
 	"strings"
@@ -70,6 +71,46 @@ type c04Cfg struct {
 	// Tmpl: a shared logger that is only ever used as a template (never logged through): "" (the base logger) | with |
 	// lazy (WithLazy with a field slice that has spare capacity) | sugarlazy (Sugar().WithLazy(…).Desugar()) | lazylazy
 	Tmpl string `json:"tmpl,omitempty"`
+	// Loggers > 1: that many loggers are built from this configuration; goroutine g logs through logger g % Loggers.
+	//   Share=false: every logger has its own cores and sinks (sink kind "reopen": all of them open the SAME registered
+	//                URL, whose factory returns a fresh recorder per call — each recorder must see its own logger only);
+	//   Share=true:  the tees of all loggers are built from ONE caller-owned []zapcore.Core (same cores, same sinks).
+	// Via="config": the loggers are built by zap.Config.Build (one output path: the reopened URL; branch 0 gives encoder
+	//                and level).  Nops: positions at which zapcore.NewNopCore() is inserted into the core slice.
+	Loggers int    `json:"loggers,omitempty"`
+	Share   bool   `json:"share,omitempty"`
+	Via     string `json:"via,omitempty"`
+	Nops    []int  `json:"nops,omitempty"`
+}
+
+func (c *c04Cfg) nLoggers() int {
+	if c.Loggers > 1 {
+		return c.Loggers
+	}
+	return 1
+}
+
+func (c *c04Cfg) nBranches() int {
+	if c.Via == "config" {
+		return 1
+	}
+	return len(c.Br)
+}
+
+// effBranches: the number of distinct (logger, branch) destinations; destination index = k*branches + b, or b when the
+// loggers share their cores.
+func (c *c04Cfg) effBranches() int {
+	if c.Share {
+		return c.nBranches()
+	}
+	return c.nLoggers() * c.nBranches()
+}
+
+func (c *c04Cfg) branchOf(eb int) c04Branch {
+	if len(c.Br) == 0 {
+		return c04Branch{Sink: "lock", Enc: "json", Min: -1}
+	}
+	return c.Br[eb%c.nBranches()%len(c.Br)]
 }
 
 type c04Act struct {
@@ -79,6 +120,9 @@ type c04Act struct {
 	Sz    int    `json:"sz"`
 	Child int    `json:"child"`
 	B     int    `json:"b"`
+	// P: the entry carries an extra "poison" field whose encoding fails inside zap (front ends that take fields):
+	// reflect | any | reflectnest | marshalerr | stringer | error
+	P string `json:"p,omitempty"`
 }
 
 type c04Op struct {
@@ -102,6 +146,17 @@ func init() {
 	_ = zap.RegisterSink("c04rec", func(u *url.URL) (zap.Sink, error) {
 		c04RegMu.Lock()
 		defer c04RegMu.Unlock()
+		if fr := c04Fresh[u.Host]; fr != nil { // "reopen": a FRESH recorder for every call
+			r := &c04Rec{gosched: fr.gosched, syncErr: fr.syncErr, atLogSync: -1}
+			if fr.safe {
+				r.safe = &sync.Mutex{}
+			}
+			fr.recs = append(fr.recs, r)
+			return c04RecSink{r}, nil
+		}
+		if b := c04OBuf[u.Host]; b != nil { // reference world built through zap.Config
+			return c04BufSink{b}, nil
+		}
 		r := c04Reg[u.Host]
 		if r == nil {
 			return nil, fmt.Errorf("no recorder %q", u.Host)
@@ -109,6 +164,24 @@ func init() {
 		return c04RecSink{r}, nil
 	})
 }
+
+type c04FreshSet struct {
+	gosched int
+	safe    bool
+	syncErr bool
+	recs    []*c04Rec
+}
+
+type c04BufSink struct{ b *bytes.Buffer }
+
+func (s c04BufSink) Write(p []byte) (int, error) { return s.b.Write(p) }
+func (c04BufSink) Sync() error                    { return nil }
+func (c04BufSink) Close() error                   { return nil }
+
+var (
+	c04Fresh = map[string]*c04FreshSet{} // guarded by c04RegMu
+	c04OBuf  = map[string]*bytes.Buffer{}
+)
 
 var (
 	c04RegMu  sync.Mutex
@@ -226,9 +299,11 @@ type c04SinkRef struct {
 
 type c04World struct {
 	recNames  []string
-	base      *zap.Logger
-	children  []*zap.Logger
-	tmpl      *zap.Logger
+	bases     []*zap.Logger   // one per logger of the configuration
+	children  [][]*zap.Logger // per logger
+	tmpls     []*zap.Logger   // per logger
+	coreSlice []zapcore.Core  // Share: the caller-owned slice all tees were built from …
+	coreWant  []zapcore.Core  // … and what it held before the first NewTee
 	sinks     []*c04SinkRef
 	bws       []*zapcore.BufferedWriteSyncer
 	clocks    []*c04Clock
@@ -240,17 +315,24 @@ type c04World struct {
 	oracleBuf []*bytes.Buffer // oracle world only: one private buffer per branch
 }
 
-func c04Encoder(kind string) zapcore.Encoder {
+func c04EncCfg(kind string) (zapcore.EncoderConfig, string) {
 	cfg := zap.NewProductionEncoderConfig()
 	switch kind {
 	case "console":
 		cfg.EncodeTime = zapcore.ISO8601TimeEncoder
-		return zapcore.NewConsoleEncoder(cfg)
+		return cfg, "console"
 	case "json2":
 		cfg.TimeKey, cfg.MessageKey, cfg.LevelKey = "time", "message", "severity"
 		cfg.EncodeTime = zapcore.RFC3339NanoTimeEncoder
 		cfg.EncodeLevel = zapcore.CapitalLevelEncoder
-		return zapcore.NewJSONEncoder(cfg)
+	}
+	return cfg, "json"
+}
+
+func c04Encoder(kind string) zapcore.Encoder {
+	cfg, name := c04EncCfg(kind)
+	if name == "console" {
+		return zapcore.NewConsoleEncoder(cfg)
 	}
 	return zapcore.NewJSONEncoder(cfg)
 }
@@ -291,8 +373,38 @@ func c04TempFile() string {
 // c04Build builds the real world (oracle=false) or the sequential reference world over private buffers.
 func c04Build(cfg *c04Cfg, oracle bool) *c04World {
 	w := &c04World{seen: c04Seen{mu: &sync.Mutex{}, ids: map[string]int{}}, errOut: &c04Rec{}}
+	// the URL every "reopen" sink (and every zap.Config-built logger) of this world opens
+	c04RegMu.Lock()
+	c04RegSeq++
+	freshHost := fmt.Sprintf("fresh%d", c04RegSeq)
+	fresh := &c04FreshSet{gosched: cfg.Gosched, safe: cfg.SafeRec, syncErr: cfg.SyncErr}
+	if !oracle {
+		c04Fresh[freshHost] = fresh
+		w.recNames = append(w.recNames, freshHost)
+	}
+	c04RegMu.Unlock()
+	// reopen opens the shared URL once more and returns what zap hands out, plus the recorder the factory created for
+	// this call (an unattached, forever empty recorder when the factory was not called again)
+	reopen := func(do func(url string) zapcore.WriteSyncer) (zapcore.WriteSyncer, *c04Rec) {
+		c04RegMu.Lock()
+		before := len(fresh.recs)
+		c04RegMu.Unlock()
+		ws := do("c04rec://" + freshHost)
+		c04RegMu.Lock()
+		defer c04RegMu.Unlock()
+		if len(fresh.recs) == before+1 {
+			return ws, fresh.recs[before]
+		}
+		return ws, &c04Rec{atLogSync: -1}
+	}
+	nB := cfg.nBranches()
+	buildCores := func(k int) []zapcore.Core {
 	var cores []zapcore.Core
 	for b, br := range cfg.Br {
+		eb := b
+		if !cfg.Share {
+			eb = k*nB + b
+		}
 		enc := c04Encoder(br.Enc)
 		var ws zapcore.WriteSyncer
 		if oracle {
@@ -308,7 +420,7 @@ func c04Build(cfg *c04Cfg, oracle bool) *c04World {
 				return rec, name
 			}
 			add := func(rec *c04Rec, file, mode string, twin int) {
-				w.sinks = append(w.sinks, &c04SinkRef{b: b, j: len(w.sinks), rec: rec, file: file, mode: mode, twin: twin})
+				w.sinks = append(w.sinks, &c04SinkRef{b: eb, j: len(w.sinks), rec: rec, file: file, mode: mode, twin: twin})
 			}
 			open := func(paths ...string) zapcore.WriteSyncer {
 				o, closeAll, err := zap.Open(paths...)
@@ -324,6 +436,10 @@ func c04Build(cfg *c04Cfg, oracle bool) *c04World {
 				return s
 			}
 			switch br.Sink {
+			case "reopen":
+				var rec *c04Rec
+				ws, rec = reopen(func(url string) zapcore.WriteSyncer { return open(url) })
+				add(rec, "", "lines", -1)
 			case "open":
 				rec, name := newRec(cfg.Gosched)
 				add(rec, "", "lines", -1)
@@ -367,23 +483,106 @@ func c04Build(cfg *c04Cfg, oracle bool) *c04World {
 	if !oracle {
 		cores = append(cores, w.seen)
 	}
-	core := zapcore.NewTee(cores...)
-	if cfg.Sampler && !oracle {
-		core = zapcore.NewSamplerWithOptions(core, time.Hour, 1, 3)
+	// optional outputs that are switched off
+	for _, at := range cfg.Nops {
+		if at < 0 {
+			at = 0
+		}
+		if at > len(cores) {
+			at = len(cores)
+		}
+		cores = append(cores[:at:at], append([]zapcore.Core{zapcore.NewNopCore()}, cores[at:]...)...)
 	}
-	opts := []zap.Option{zap.WithClock(&c04Clock{}), zap.ErrorOutput(zapcore.Lock(w.errOut))}
-	if cfg.Caller {
-		opts = append(opts, zap.AddCaller())
+	return cores
 	}
-	w.base = zap.New(core, opts...)
-	if cfg.Named {
-		w.base = w.base.Named("svc")
+	wrap := func(core zapcore.Core) zapcore.Core {
+		if cfg.Sampler && !oracle {
+			core = zapcore.NewSamplerWithOptions(core, time.Hour, 1, 3)
+		}
+		return core
 	}
-	for c := 0; c < cfg.Children; c++ {
-		w.children = append(w.children, w.base.With(zap.Int("child", c), zap.String("tag", strings.Repeat("c", c*7))))
+	var shared []zapcore.Core
+	for k := 0; k < cfg.nLoggers(); k++ {
+		var base *zap.Logger
+		if cfg.Via == "config" {
+			base = c04ViaConfig(w, cfg, k, oracle, reopen, wrap)
+		} else {
+			var core zapcore.Core
+			switch {
+			case cfg.Share && oracle:
+				// the reference world never reuses a slice: a fresh one per tee
+				if shared == nil {
+					shared = buildCores(0)
+				}
+				core = zapcore.NewTee(append([]zapcore.Core(nil), shared...)...)
+			case cfg.Share:
+				if shared == nil {
+					shared = buildCores(0)
+					w.coreSlice, w.coreWant = shared, append([]zapcore.Core(nil), shared...)
+				}
+				core = zapcore.NewTee(shared...) // the caller-owned slice, passed again for every logger
+			default:
+				core = zapcore.NewTee(buildCores(k)...)
+			}
+			opts := []zap.Option{zap.WithClock(&c04Clock{}), zap.ErrorOutput(zapcore.Lock(w.errOut))}
+			if cfg.Caller {
+				opts = append(opts, zap.AddCaller())
+			}
+			base = zap.New(wrap(core), opts...)
+		}
+		if cfg.Named {
+			base = base.Named("svc")
+		}
+		if cfg.nLoggers() > 1 {
+			base = base.With(zap.Int("comp", k))
+		}
+		var ch []*zap.Logger
+		for c := 0; c < cfg.Children; c++ {
+			ch = append(ch, base.With(zap.Int("child", c), zap.String("tag", strings.Repeat("c", c*7))))
+		}
+		w.bases = append(w.bases, base)
+		w.children = append(w.children, ch)
+		w.tmpls = append(w.tmpls, c04Template(base, cfg.Tmpl))
 	}
-	w.tmpl = c04Template(w.base, cfg.Tmpl)
 	return w
+}
+
+// c04ViaConfig builds logger k the way applications do: zap.Config.Build with the shared URL as its only output path.
+func c04ViaConfig(w *c04World, cfg *c04Cfg, k int, oracle bool,
+	reopen func(func(string) zapcore.WriteSyncer) (zapcore.WriteSyncer, *c04Rec), wrap func(zapcore.Core) zapcore.Core) *zap.Logger {
+	br := cfg.branchOf(0)
+	ecfg, encName := c04EncCfg(br.Enc)
+	zc := zap.Config{Level: zap.NewAtomicLevelAt(zapcore.Level(br.Min)), Encoding: encName, EncoderConfig: ecfg,
+		ErrorOutputPaths: []string{}, DisableCaller: !cfg.Caller, DisableStacktrace: true}
+	opts := []zap.Option{zap.WithClock(&c04Clock{})}
+	var l *zap.Logger
+	if oracle {
+		buf := &bytes.Buffer{}
+		w.oracleBuf = append(w.oracleBuf, buf)
+		c04RegMu.Lock()
+		c04RegSeq++
+		host := fmt.Sprintf("obuf%d", c04RegSeq)
+		c04OBuf[host] = buf
+		c04RegMu.Unlock()
+		zc.OutputPaths = []string{"c04rec://" + host}
+		var err error
+		l, err = zc.Build(opts...)
+		must(err)
+		c04RegMu.Lock()
+		delete(c04OBuf, host)
+		c04RegMu.Unlock()
+		return l
+	}
+	opts = append(opts, zap.WrapCore(func(c zapcore.Core) zapcore.Core { return wrap(zapcore.NewTee(c, w.seen)) }))
+	_, rec := reopen(func(url string) zapcore.WriteSyncer {
+		zc.OutputPaths = []string{url}
+		var err error
+		l, err = zc.Build(opts...)
+		must(err)
+		return nil
+	})
+	w.sinks = append(w.sinks, &c04SinkRef{b: k, j: len(w.sinks), rec: rec, mode: "lines", twin: -1})
+	return l
 }
 
 // c04Template derives the shared template logger; nobody ever logs through it, goroutines only derive from it.
@@ -430,6 +629,7 @@ func (w *c04World) cleanup() {
 	defer c04RegMu.Unlock()
 	for _, n := range w.recNames {
 		delete(c04Reg, n)
+		delete(c04Fresh, n)
 	}
 	for _, s := range w.sinks {
 		if s.file != "" {
@@ -462,9 +662,74 @@ var c04SlogLevels = map[int]slog.Level{-1: slog.LevelDebug, 0: slog.LevelInfo, 1
 
 // c04Emit performs one log call through front end fe. The real run and the reference replay both go through this
 // function, so caller annotations agree.
-func c04Emit(l *zap.Logger, fe string, lvlI int, msg string, seq int) {
+type c04FailObj struct{}
+
+func (c04FailObj) MarshalLogObject(enc zapcore.ObjectEncoder) error {
+	enc.AddString("half", "written")
+	return fmt.Errorf("marshaler boom")
+}
+
+type c04PanicStringer struct{}
+
+func (c04PanicStringer) String() string { panic("stringer boom") }
+
+type c04PanicErr struct{}
+
+func (c04PanicErr) Error() string { panic("error boom") }
+
+// c04Poison: a value whose encoding fails inside zap (zap reports `<key>Error` in the line and goes on).
+func c04Poison(kind string) (any, zap.Field, bool) {
+	switch kind {
+	case "reflect":
+		v := make(chan int)
+		return v, zap.Reflect("bad", v), true
+	case "any":
+		v := func() {}
+		return v, zap.Any("bad", v), true
+	case "reflectnest":
+		v := []any{1, "two", map[string]any{"c": make(chan int)}}
+		return v, zap.Reflect("bad", v), true
+	case "marshalerr":
+		return c04FailObj{}, zap.Object("bad", c04FailObj{}), true
+	case "stringer":
+		return c04PanicStringer{}, zap.Stringer("bad", c04PanicStringer{}), true
+	case "error":
+		return c04PanicErr{}, zap.NamedError("bad", c04PanicErr{}), true
+	}
+	return nil, zap.Skip(), false
+}
+
+func c04Emit(l *zap.Logger, fe string, lvlI int, msg string, seq int, poison string) {
 	lvl := zapcore.Level(lvlI)
 	f := zap.Int("i", seq)
+	pv, pf, poisoned := c04Poison(poison)
+	if poisoned {
+		switch fe {
+		case "log":
+			l.Log(lvl, msg, f, pf)
+			return
+		case "check":
+			if ce := l.Check(lvl, msg); ce != nil {
+				ce.Write(f, pf)
+			}
+			return
+		case "sugarw":
+			l.Sugar().Logw(lvl, msg, "i", seq, "bad", pv)
+			return
+		case "corewrite":
+			_ = l.Core().Write(zapcore.Entry{Level: lvl, Time: c04Time, Message: msg}, []zapcore.Field{f, pf})
+			return
+		case "slog":
+			h := zapslog.NewHandler(l.Core(), zapslog.AddStacktraceAt(slog.Level(100)))
+			rec := slog.NewRecord(c04Time, c04SlogLevels[lvlI], msg, 0)
+			rec.AddAttrs(slog.Int("i", seq), slog.Any("bad", pv))
+			_ = h.Handle(context.Background(), rec)
+			return
+		case "plain", "":
+			l.Log(lvl, msg, f, pf)
+			return
+		}
+	}
 	switch fe {
 	case "log":
 		l.Log(lvl, msg, f)
@@ -525,7 +790,9 @@ func c04Emit(l *zap.Logger, fe string, lvlI int, msg string, seq int) {
 
 // runG executes one goroutine's program. after(seq) is called after every log action (reference replay only).
 func (w *c04World) runG(g int, acts []c04Act, after func(seq int)) {
-	local := w.base
+	k := g % len(w.bases)
+	base, children, tmpl := w.bases[k], w.children[k], w.tmpls[k]
+	local := base
 	for seq, a := range acts {
 		func() {
 			defer func() {
@@ -535,7 +802,7 @@ func (w *c04World) runG(g int, acts []c04Act, after func(seq int)) {
 			}()
 			switch a.A {
 			case "log":
-				c04Emit(local, a.Fe, a.Lvl, c04Msg(g, seq, a.Sz), seq)
+				c04Emit(local, a.Fe, a.Lvl, c04Msg(g, seq, a.Sz), seq, a.P)
 				if after != nil {
 					after(seq)
 				}
@@ -544,14 +811,14 @@ func (w *c04World) runG(g int, acts []c04Act, after func(seq int)) {
 			case "derive": // Fe = flavour; Child ≥ 1: from the shared template, else from the goroutine's current logger
 				src := local
 				if a.Child >= 1 {
-					src = w.tmpl
+					src = tmpl
 				}
 				local = c04Derive(src, a.Fe, g, seq)
 			case "child":
-				if len(w.children) > 0 && a.Child >= 0 {
-					local = w.children[a.Child%len(w.children)]
+				if len(children) > 0 && a.Child >= 0 {
+					local = children[a.Child%len(children)]
 				} else {
-					local = w.base
+					local = base
 				}
 			case "sync":
 				_ = local.Sync()
@@ -584,7 +851,7 @@ func c04Expected(op *c04Op) [][][]c04Line {
 	exp := make([][][]c04Line, len(op.Gs))
 	for g := range op.Gs {
 		w := c04Build(&op.Cfg, true)
-		exp[g] = make([][]c04Line, len(op.Cfg.Br))
+		exp[g] = make([][]c04Line, len(w.oracleBuf))
 		w.runG(g, op.Gs[g], func(seq int) {
 			for b, buf := range w.oracleBuf {
 				if buf.Len() > 0 {
@@ -828,7 +1095,9 @@ func c04RunOnce(op *c04Op) (w *c04World, timeout bool, dump string) {
 		close(start)
 		wg.Wait()
 		// BufferedWriteSyncer holds data until Sync/Stop: always drain before judging
-		_ = w.base.Sync()
+		for _, l := range w.bases {
+			_ = l.Sync()
+		}
 		// all goroutines are done and Logger.Sync has returned: every branch must hold everything already (the Stop below
 		// would hide a branch that Sync never reached)
 		for _, s := range w.sinks {
@@ -934,7 +1203,7 @@ func c04Exec(raw json.RawMessage) Result {
 	res := make([]c04SinkRes, 0, len(w.sinks))
 	var hists []c04Hist
 	var goOK []bool
-	perBranchIDs := make([]map[string]bool, len(op.Cfg.Br)) // ids delivered per branch (for the tee classification)
+	perBranchIDs := make([]map[string]bool, op.Cfg.effBranches()) // ids delivered per branch (for the tee classification)
 	for _, s := range w.sinks {
 		per := make([][][]byte, len(op.Gs))
 		ids := map[string]string{}
@@ -955,7 +1224,7 @@ func c04Exec(raw json.RawMessage) Result {
 		if s.rec != nil {
 			if s.rec.atLogSync >= 0 && s.rec.atLogSync < len(s.rec.stream) {
 				fail("C04:sync-left-branch-unflushed", "branch %d (%s) sink %d: %d of %d bytes reached the sink only after Logger.Sync had returned (all goroutines had finished): Sync did not flush this branch",
-					s.b, op.Cfg.Br[s.b].Sink, s.j, len(s.rec.stream)-s.rec.atLogSync, len(s.rec.stream))
+					s.b, op.Cfg.branchOf(s.b).Sink, s.j, len(s.rec.stream)-s.rec.atLogSync, len(s.rec.stream))
 			}
 			calls = s.rec.calls
 			if !bytes.Equal(bytes.Join(calls, nil), s.rec.stream) {
@@ -995,10 +1264,10 @@ func c04Exec(raw json.RawMessage) Result {
 			}
 		}
 		if !valid {
-			if class == "lost-entry" && len(op.Cfg.Br) > 1 {
+			if class == "lost-entry" && op.Cfg.nBranches() > 1 {
 				class = "tee-or-lost" // resolved below
 			}
-			fail("C04:"+class, "branch %d (%s, %s) sink %d: %s", s.b, op.Cfg.Br[s.b].Sink, s.mode, s.j, detail)
+			fail("C04:"+class, "branch %d (%s, %s) sink %d: %s", s.b, op.Cfg.branchOf(s.b).Sink, s.mode, s.j, detail)
 		}
 		if s.twin >= 0 && s.rec != nil && w.sinks[s.twin].rec != nil {
 			a, b2 := s.rec.calls, w.sinks[s.twin].rec.calls
@@ -1022,7 +1291,7 @@ func c04Exec(raw json.RawMessage) Result {
 	if !o.OK && o.Sig == "C04:tee-or-lost" {
 		o.Sig = "C04:lost-entry"
 		for g := range op.Gs {
-			for b := range op.Cfg.Br {
+			for b := 0; b < op.Cfg.effBranches(); b++ {
 				if b >= len(exp[g]) {
 					continue
 				}
@@ -1030,8 +1299,8 @@ func c04Exec(raw json.RawMessage) Result {
 					if !passed(l.id) || perBranchIDs[b] == nil || perBranchIDs[b][l.id] {
 						continue
 					}
-					for b2 := range op.Cfg.Br {
-						if b2 != b && perBranchIDs[b2] != nil && perBranchIDs[b2][l.id] {
+					for b2 := 0; b2 < op.Cfg.effBranches(); b2++ { // the other branches of the same logger's tee
+						if b2 != b && b2/op.Cfg.nBranches() == b/op.Cfg.nBranches() && perBranchIDs[b2] != nil && perBranchIDs[b2][l.id] {
 							o.Sig = "C04:tee-branch-incomplete"
 						}
 					}
@@ -1039,6 +1308,15 @@ func c04Exec(raw json.RawMessage) Result {
 						o.Sig = "C04:tee-branch-incomplete"
 					}
 				}
+			}
+		}
+	}
+	// a core slice handed to NewTee belongs to the caller: it must read the same afterwards
+	if w.coreSlice != nil {
+		for i := range w.coreWant {
+			if c04CoreID(w.coreSlice[i]) != c04CoreID(w.coreWant[i]) {
+				fail("C04:tee-input-mutated", "NewTee changed the caller's core slice: element %d was %s, is %s", i, c04CoreID(w.coreWant[i]), c04CoreID(w.coreSlice[i]))
+				break
 			}
 		}
 	}
@@ -1058,6 +1336,13 @@ func c04Exec(raw json.RawMessage) Result {
 	return Result{Impl: impl, Oracle: o, Nontrivial: len(op.Gs) >= 2 && delivering >= 2 && len(w.sinks) > 0, Shape: shape}
 }
 
+func c04CoreID(c zapcore.Core) string {
+	if v := reflect.ValueOf(c); v.Kind() == reflect.Ptr {
+		return fmt.Sprintf("%T@%x", c, v.Pointer())
+	}
+	return fmt.Sprintf("%T", c)
+}
+
 func c04Shape(op *c04Op) string {
 	var ks []string
 	for _, b := range op.Cfg.Br {
@@ -1066,6 +1351,18 @@ func c04Shape(op *c04Op) string {
 	s := "prog/" + strings.Join(ks, "+")
 	if op.Cfg.Sampler {
 		s += "/sampler"
+	}
+	if op.Cfg.nLoggers() > 1 {
+		s += fmt.Sprintf("/x%d", op.Cfg.nLoggers())
+		if op.Cfg.Share {
+			s += "shared"
+		}
+	}
+	if op.Cfg.Via != "" {
+		s += "/" + op.Cfg.Via
+	}
+	if len(op.Cfg.Nops) > 0 {
+		s += "/nops"
 	}
 	return fmt.Sprintf("%s/g%d", s, len(op.Gs))
 }
